@@ -56,6 +56,9 @@ def in_scope(prop, b):
             return bool(d & (ALLOBS | {"keyRestored", "failed"}))
         if ev in ("Query", "Ending"):
             return bool(d & (ALLOBS | {"keyStable"}))
+        if ev == "CloneUndo":
+            # the boards the search and the position counter work on are copies: undo must restore on them too
+            return bool(d & (ALLOBS | {"failed"}))
         return False
     if prop == "C05":
         if ev in ("Put", "Remove", "LoseRights", "PushEp", "PopEp", "EReset"):
